@@ -26,7 +26,7 @@ func init() {
 	register(&PropDef{
 		ID:    "C09",
 		Level: "exploration",
-		Rule: "histories sign → modify → present: check 'floor' enumerates, per base document, each of the seven signed header fields × {alter, remove, add another} × {no recalculation, recalculation} and presents the result to all seven verification entry points (Envelope.Verify, Envelope.VerifySignature, cli.Verify over a chunked simulated stream, bulk verify, HTTP /verify, HTTP /bulk, `gobl verify` cobra command) × {signer's key, other key, no key}; check 'life' draws seeded longer histories with crash-restart, lost-write and re-encoding faults; " +
+		Rule: "histories sign → modify → present (signing and re-signing also through cli.Sign, bulk, HTTP bulk and gobl sign; accepted envelopes also presented re-encoded to the byte-based entry points; the signer's key also without and under another key id): check 'floor' enumerates, per base document, each of the seven signed header fields × {alter, remove, add another} × {no recalculation, recalculation} and presents the result to all seven verification entry points (Envelope.Verify, Envelope.VerifySignature, cli.Verify over a chunked simulated stream, bulk verify, HTTP /verify, HTTP /bulk, `gobl verify` cobra command) × {signer's key, other key, no key}; check 'life' draws seeded longer histories with crash-restart, lost-write and re-encoding faults; " +
 			"a case is (history, entry point, key) and is non-trivial when the history modified the envelope after signing",
 		Assumptions: []string{
 			"single-signer envelopes (the CLI paths only look at the first signature)",
